@@ -136,8 +136,9 @@ def groups : List String → List One
 Impl: `Glue.runAll implKeying` over the interpretation the harness measured (archive `i` is the token `A<i>`, its
 verified remainder `R<i>`).  Oracle (history- and memo-blind): an operation that got past index loading has, for every
 index of every resolution's family, some archive that was ever offered for that URL and that `Spec.acceptableB` allows
-to be used under the owner's keys and the reader's switch (or the local file is absent now); and every answered
-package comes from such a reading of one of the reader's own repositories. -/
+to be used under the owner's keys and the reader's switch (or the local file is absent now, or the run is offline
+and the index remote: it may never have been stored); and every answered package comes from such a reading of one
+of the reader's own repositories. -/
 namespace Glue
 open Apko.IndexSig.Glue
 
@@ -267,6 +268,9 @@ def familyOK (ds : List ArchDesc) (seen : List PRun) (cur : PRun) (x : Resn) : B
     owner.repos.all fun repo =>
       let url := indexURL repo owner.arch
       if !isRemote url && !(cur.ents.any (fun e => e.url == url)) then true
+      -- offline, an index that was never stored is skipped like a missing local file; whether one was stored is
+      -- history, which this oracle does not look at (what an offline run *answers* is checked by `answerOK`)
+      else if isRemote url && cur.run.net.offline then true
       else (offered seen url).any fun aid => !(candReadings ds owner.keys (readOpts x.reader owner) owner.arch url aid).isEmpty
 
 def answerOK (ds : List ArchDesc) (seen : List PRun) (x : Resn) (ans : String) : Bool :=
